@@ -82,7 +82,7 @@ pub fn run(tier: Tier) -> i32 {
     rep.count("forests", n_forests as u64);
 
     // ---- part B: whitespace variants, exhaustive on <= 2-node forests ----------------------
-    let ws_vals: &[u8] = tier.pick(&[0, 1, 2], &[0, 1, 2, 3]);
+    let ws_vals: &[u8] = tier.pick(&[0, 1, 2, 4], &[0, 1, 2, 3, 4, 5]);
     let mut n_ws = 0u64;
     for n in 1..=2 {
         for f in forests(n, &["x"], &["b"]) {
